@@ -163,7 +163,7 @@ def ops : List (String × (Json → Json)) :=
         Json.mkObj [("dump", jok (jstr text)), ("doc", jdoc d),
                     ("representable", Json.bool (IniText.Representable d)),
                     ("parse_is_canon", Json.bool (match IniText.parse text with
-                        | .ok d' => d' == IniText.canon d
+                        | .ok d' => d' == IniText.canon (IniText.dropComments d)
                         | .error _ => false)),
                     ("load", exceptJson jtreeInfo back),
                     ("load_doc", exceptJson jtreeInfo (deserialize fo d)),
